@@ -87,7 +87,7 @@ let () =
     let eqs st =
       let acc = Buffer.create 32 in
       for i = 0 to nh - 1 do for j = i + 1 to nh - 1 do
-          if (hnd "()" st (nat_of_int i)).h_ids = (hnd "()" st (nat_of_int j)).h_ids then Buffer.add_string acc (Printf.sprintf "%d%d," i j)
+          if (hnd "()" st (nat_of_int i)).h_ids <> [] && (hnd "()" st (nat_of_int i)).h_ids = (hnd "()" st (nat_of_int j)).h_ids then Buffer.add_string acc (Printf.sprintf "%d%d," i j)
         done done;
       if Buffer.length acc = 0 then "-" else Buffer.contents acc in
     Buffer.add_string b (" eqi=" ^ eqs !sh_in ^ " eql=" ^ eqs !sh_lab);
